@@ -225,13 +225,78 @@ theorem notesOf_copy (h : Heap) (objs : List Nat) :
   | none => rfl
   | some c => simp [isNote_shift]
 
-theorem partsOf_copy (h : Heap) (root : Nat) :
-    partsOf (h ++ h.map (Cell.shift h.length)) (root + h.length) = (partsOf h root).map (· + h.length) := by
-  unfold partsOf
+theorem listedParts_copy (h : Heap) (root : Nat) :
+    listedParts (h ++ h.map (Cell.shift h.length)) (root + h.length) = (listedParts h root).map (· + h.length) := by
+  unfold listedParts
   rw [copy_hi]
   cases h[root]? with
   | none => rfl
   | some c => cases c <;> simp [Cell.shift]
+
+theorem uniqueParts_map (n : Nat) : ∀ (l seen : List Nat),
+    uniqueParts (seen.map (· + n)) (l.map (· + n)) = (uniqueParts seen l).map (· + n)
+  | [], _ => rfl
+  | p :: ps, seen => by
+    have hc : (seen.map (· + n)).contains (p + n) = seen.contains p := by
+      induction seen with
+      | nil => rfl
+      | cons x xs ih =>
+        simp only [List.map_cons, List.contains_cons, ih]
+        have : (p + n == x + n) = (p == x) := by
+          by_cases hpx : p = x
+          · subst hpx; simp
+          · have h2 : ¬ (p + n = x + n) := by omega
+            rw [beq_eq_false_iff_ne.mpr hpx, beq_eq_false_iff_ne.mpr h2]
+        rw [this]
+    simp only [List.map_cons, uniqueParts, hc]
+    split
+    · exact uniqueParts_map n ps seen
+    · rw [List.map_cons]
+      congr 1
+      exact uniqueParts_map n ps (p :: seen)
+
+theorem mem_uniqueParts {p : Nat} : ∀ {l seen : List Nat}, p ∈ uniqueParts seen l ↔ p ∈ l ∧ p ∉ seen
+  | [], _ => by simp [uniqueParts]
+  | q :: qs, seen => by
+    unfold uniqueParts
+    split
+    · rename_i hq
+      have hq' : q ∈ seen := by simpa using hq
+      rw [mem_uniqueParts]
+      constructor
+      · exact fun ⟨a, b⟩ => ⟨List.mem_cons_of_mem _ a, b⟩
+      · rintro ⟨a, b⟩
+        rcases List.mem_cons.mp a with rfl | a
+        · exact absurd hq' b
+        · exact ⟨a, b⟩
+    · rename_i hq
+      have hq' : q ∉ seen := by simpa using hq
+      rw [List.mem_cons, mem_uniqueParts, List.mem_cons, List.mem_cons]
+      constructor
+      · rintro (rfl | ⟨a, b⟩)
+        · exact ⟨Or.inl rfl, hq'⟩
+        · exact ⟨Or.inr a, fun hs => b (Or.inr hs)⟩
+      · rintro ⟨a | a, b⟩
+        · exact Or.inl a
+        · by_cases hpq : p = q
+          · exact Or.inl hpq
+          · exact Or.inr ⟨a, fun hs => hs.elim hpq b⟩
+
+theorem nodup_uniqueParts : ∀ (l seen : List Nat), (uniqueParts seen l).Nodup
+  | [], _ => List.nodup_nil
+  | q :: qs, seen => by
+    unfold uniqueParts
+    split
+    · exact nodup_uniqueParts qs seen
+    · rw [List.nodup_cons]
+      refine ⟨fun hm => ?_, nodup_uniqueParts qs (q :: seen)⟩
+      exact (mem_uniqueParts.mp hm).2 (List.mem_cons_self)
+
+theorem partsOf_copy (h : Heap) (root : Nat) :
+    partsOf (h ++ h.map (Cell.shift h.length)) (root + h.length) = (partsOf h root).map (· + h.length) := by
+  unfold partsOf
+  rw [listedParts_copy]
+  exact uniqueParts_map h.length _ []
 
 theorem targets_copy (h : Heap) (ps : List Nat) :
     targets (h ++ h.map (Cell.shift h.length)) (ps.map (· + h.length)) = (targets h ps).map (· + h.length) := by
@@ -326,6 +391,8 @@ theorem foldl_parts_total (iv : Interval) : ∀ (ps : List Nat) (h : Heap), (tar
 
 theorem partsOf_sameFrame {h h' : Heap} (hf : SameFrame h h') (r : Nat) : partsOf h' r = partsOf h r := by
   unfold partsOf
+  congr 1
+  unfold listedParts
   have := hf.2 r
   cases h2 : h[r]? with
   | none =>
@@ -354,5 +421,341 @@ theorem targets_result {h h' : Heap} {root r' : Nat} {iv : Interval} (e : transp
     targets h' (partsOf h' r') = (targets h (partsOf h root)).map (· + h.length) := by
   obtain ⟨hr, f, -, -⟩ := transpose_unfold e
   rw [partsOf_sameFrame f, targets_sameFrame f, hr, partsOf_copy, targets_copy]
+
+/-! ### a note that is listed several times (a part listed twice in a score, …): no `Nodup` anywhere -/
+
+/-- `_transpose_note_inplace` applied `k` times to one object -/
+def iterT (iv : Interval) : Nat → Cell → Option Cell
+  | 0, c => some c
+  | k + 1, c => (Cell.transposed iv c).bind (iterT iv k)
+
+theorem iterT_add (iv : Interval) (m n : Nat) (c : Cell) :
+    (iterT iv m c).bind (iterT iv n) = iterT iv (m + n) c := by
+  induction m generalizing c with
+  | zero => simp [iterT]
+  | succ m ih =>
+    have : m + 1 + n = (m + n) + 1 := by omega
+    rw [this]
+    simp only [iterT, Option.bind_assoc]
+    congr 1
+    funext x
+    exact ih x
+
+theorem iterT_shift (iv : Interval) (n : Nat) : ∀ (k : Nat) (c : Cell),
+    iterT iv k (c.shift n) = (iterT iv k c).map (Cell.shift n)
+  | 0, c => rfl
+  | k + 1, c => by
+    simp only [iterT, transposed_shift]
+    cases Cell.transposed iv c with
+    | none => rfl
+    | some c' => simpa using iterT_shift iv n k c'
+
+/-- the inner loop, for ANY list of addresses: the object at `a` is transposed as often as `a` is listed -/
+theorem foldl_at_count (iv : Interval) : ∀ (l : List Nat) (h h' : Heap), l.foldlM (transposeAt iv) h = some h' →
+    ∀ a, h'[a]? = h[a]?.bind (iterT iv (l.count a)) := by
+  intro l
+  induction l with
+  | nil =>
+    intro h h' e a
+    simp only [List.foldlM_nil, Option.pure_def, Option.some.injEq] at e
+    subst e
+    cases h[a]? <;> simp [iterT]
+  | cons x l ih =>
+    intro h h' e a
+    simp only [List.foldlM_cons, Option.bind_eq_bind, Option.bind_eq_some_iff] at e
+    obtain ⟨h1, e1, e2⟩ := e
+    obtain ⟨c, c', hc, hc', rfl⟩ := transposeAt_spec e1
+    have hx : x < h.length := by
+      rcases Nat.lt_or_ge x h.length with hlt | hge
+      · exact hlt
+      · rw [List.getElem?_eq_none hge] at hc; cases hc
+    rw [ih _ _ e2 a, List.getElem?_set]
+    by_cases hax : x = a
+    · subst hax
+      rw [hc]
+      simp [hx, iterT, hc']
+    · have : (x :: l).count a = l.count a := by
+        rw [List.count_cons]; simp [hax]
+      simp [hax, this]
+
+/-- the two nested loops, for ANY list of parts -/
+theorem foldl_parts_count (iv : Interval) : ∀ (ps : List Nat) (h h' : Heap),
+    ps.foldlM (transposePart iv) h = some h' →
+    ∀ a, h'[a]? = h[a]?.bind (iterT iv ((targets h ps).count a)) := by
+  intro ps
+  induction ps with
+  | nil =>
+    intro h h' e a
+    simp only [List.foldlM_nil, Option.pure_def, Option.some.injEq] at e
+    subst e
+    cases h[a]? <;> simp [iterT, targets]
+  | cons p ps ih =>
+    intro h h' e a
+    simp only [List.foldlM_cons, Option.bind_eq_bind, Option.bind_eq_some_iff] at e
+    obtain ⟨h1, e1, e2⟩ := e
+    unfold transposePart at e1
+    split at e1
+    · rename_i objs hp
+      obtain ⟨f1, -, -⟩ := foldl_at iv _ _ _ e1
+      have ht : targets h (p :: ps) = notesOf h objs ++ targets h ps := by
+        simp [targets, hp]
+      rw [ih _ _ e2 a, targets_sameFrame f1, foldl_at_count iv _ _ _ e1 a, ht, List.count_append,
+        Option.bind_assoc]
+      congr 1
+      funext c
+      exact iterT_add iv _ _ c
+    · cases e1
+
+theorem count_map_add (n a : Nat) (l : List Nat) : (l.map (· + n)).count (a + n) = l.count a := by
+  induction l with
+  | nil => rfl
+  | cons x l ih =>
+    simp only [List.map_cons, List.count_cons, ih]
+    congr 1
+    by_cases hxa : x = a
+    · simp [hxa]
+    · simp [hxa]
+
+/-- `transpose`, for ANY argument: the copy of the object at `a` is `_transpose_note_inplace` applied to it as
+    often as the loops list it -/
+theorem transpose_count {h h' : Heap} {root r' : Nat} {iv : Interval} (e : transpose h root iv = some (h', r'))
+    (a : Nat) :
+    h'[a + h.length]? =
+      (h[a]?.bind (iterT iv ((targets h (partsOf h root)).count a))).map (Cell.shift h.length) := by
+  unfold transpose deepcopy at e
+  simp only [Option.map_eq_some_iff, Prod.mk.injEq] at e
+  obtain ⟨h2, e2, rfl, rfl⟩ := e
+  rw [foldl_parts_count iv _ _ _ e2 (a + h.length), partsOf_copy, targets_copy, count_map_add, copy_hi]
+  cases h[a]? with
+  | none => rfl
+  | some c => simp [iterT_shift]
+
+/-! ### totality without `Nodup`: an invariant on the cells the loops touch -/
+
+/-- every address of `T` holds a cell satisfying `G` -/
+def AllGood (G : Cell → Prop) (T : List Nat) (h : Heap) : Prop := ∀ a ∈ T, ∃ c, h[a]? = some c ∧ G c
+
+theorem foldl_at_good (iv : Interval) (G : Cell → Prop)
+    (hG : ∀ c, G c → ∃ c', Cell.transposed iv c = some c' ∧ G c') (T : List Nat) :
+    ∀ (l : List Nat) (h : Heap), (∀ a ∈ l, a ∈ T) → AllGood G T h →
+      ∃ h', l.foldlM (transposeAt iv) h = some h' ∧ AllGood G T h' := by
+  intro l
+  induction l with
+  | nil => intro h _ inv; exact ⟨h, rfl, inv⟩
+  | cons x l ih =>
+    intro h sub inv
+    obtain ⟨c, hc, gc⟩ := inv x (sub x (by simp))
+    obtain ⟨c', hc', gc'⟩ := hG c gc
+    have hx : x < h.length := by
+      rcases Nat.lt_or_ge x h.length with hlt | hge
+      · exact hlt
+      · rw [List.getElem?_eq_none hge] at hc; cases hc
+    have e1 : transposeAt iv h x = some (h.set x c') := by simp [transposeAt, hc, hc']
+    have inv' : AllGood G T (h.set x c') := by
+      intro a ha
+      rw [List.getElem?_set]
+      by_cases hax : x = a
+      · subst hax; exact ⟨c', by simp [hx], gc'⟩
+      · simpa [hax] using inv a ha
+    obtain ⟨h', e2, inv2⟩ := ih _ (fun a ha => sub a (by simp [ha])) inv'
+    exact ⟨h', by simp only [List.foldlM_cons, Option.bind_eq_bind, e1, Option.bind_some, e2], inv2⟩
+
+theorem foldl_parts_good (iv : Interval) (G : Cell → Prop)
+    (hG : ∀ c, G c → ∃ c', Cell.transposed iv c = some c' ∧ G c') (T : List Nat) :
+    ∀ (ps : List Nat) (h : Heap), (∀ p ∈ ps, ∃ os, h[p]? = some (Cell.part os)) →
+      (∀ a ∈ targets h ps, a ∈ T) → AllGood G T h → (ps.foldlM (transposePart iv) h).isSome := by
+  intro ps
+  induction ps with
+  | nil => intro h _ _ _; rfl
+  | cons p ps ih =>
+    intro h hp sub inv
+    obtain ⟨os, hos⟩ := hp p (by simp)
+    have ht : targets h (p :: ps) = notesOf h os ++ targets h ps := by
+      simp [targets, hos]
+    rw [ht] at sub
+    obtain ⟨h1, e1, inv1⟩ := foldl_at_good iv G hG T _ h (fun a ha => sub a (List.mem_append_left _ ha)) inv
+    have e1' : transposePart iv h p = some h1 := by simp [transposePart, hos, e1]
+    simp only [List.foldlM_cons, Option.bind_eq_bind, e1', Option.bind_some]
+    obtain ⟨f1, -, -⟩ := foldl_at iv _ _ _ e1
+    apply ih _ _ _ inv1
+    · intro q hq
+      obtain ⟨os', hq'⟩ := hp q (by simp [hq])
+      exact ⟨os', part_sameFrame f1 hq'⟩
+    · rw [targets_sameFrame f1]
+      exact fun a ha => sub a (List.mem_append_right _ ha)
+
+/-! ### an interval that moves no note at all (it has no size) -/
+
+theorem foldl_at_none (iv : Interval) (hN : ∀ c, Cell.transposed iv c = none) :
+    ∀ (l : List Nat) (h h' : Heap), l.foldlM (transposeAt iv) h = some h' → l = [] ∧ h' = h := by
+  intro l h h' e
+  cases l with
+  | nil => simpa using e.symm
+  | cons x l =>
+    simp only [List.foldlM_cons, Option.bind_eq_bind, Option.bind_eq_some_iff] at e
+    obtain ⟨h1, e1, -⟩ := e
+    obtain ⟨c, c', -, hc', -⟩ := transposeAt_spec e1
+    rw [hN] at hc'
+    cases hc'
+
+theorem foldl_parts_none (iv : Interval) (hN : ∀ c, Cell.transposed iv c = none) :
+    ∀ (ps : List Nat) (h h' : Heap), ps.foldlM (transposePart iv) h = some h' → targets h ps = [] ∧ h' = h := by
+  intro ps
+  induction ps with
+  | nil =>
+    intro h h' e
+    simp only [List.foldlM_nil, Option.pure_def, Option.some.injEq] at e
+    exact ⟨rfl, e.symm⟩
+  | cons p ps ih =>
+    intro h h' e
+    simp only [List.foldlM_cons, Option.bind_eq_bind, Option.bind_eq_some_iff] at e
+    obtain ⟨h1, e1, e2⟩ := e
+    unfold transposePart at e1
+    split at e1
+    · rename_i objs hp
+      obtain ⟨hn, q1⟩ := foldl_at_none iv hN _ _ _ e1
+      subst q1
+      obtain ⟨ht, q2⟩ := ih _ _ e2
+      subst q2
+      refine ⟨?_, rfl⟩
+      have : targets h' (p :: ps) = notesOf h' objs ++ targets h' ps := by simp [targets, hp]
+      rw [this, hn, ht]
+      rfl
+    · cases e1
+
+/-! ### the loops run to the first raise (`runNotes`, `runParts`, `transposeRun`) -/
+
+theorem runNotes_cons_some {iv : Interval} {a : Nat} {l : List Nat} {h h' : Heap}
+    (e : transposeAt iv h a = some h') : runNotes iv (a :: l) h = runNotes iv l h' := by
+  simp [runNotes, e]
+
+theorem runNotes_cons_none {iv : Interval} {a : Nat} {l : List Nat} {h : Heap}
+    (e : transposeAt iv h a = none) : runNotes iv (a :: l) h = (h, false) := by
+  simp [runNotes, e]
+
+theorem runParts_cons_part {iv : Interval} {p : Nat} {ps : List Nat} {h : Heap} {objs : List Nat}
+    (hp : h[p]? = some (Cell.part objs)) :
+    runParts iv (p :: ps) h =
+      if (runNotes iv (notesOf h objs) h).2 then runParts iv ps (runNotes iv (notesOf h objs) h).1
+      else runNotes iv (notesOf h objs) h := by
+  simp [runParts, hp]
+
+theorem runParts_cons_other {iv : Interval} {p : Nat} {ps : List Nat} {h : Heap}
+    (hp : ∀ objs, h[p]? ≠ some (Cell.part objs)) : runParts iv (p :: ps) h = (h, false) := by
+  unfold runParts
+  split
+  · rename_i objs hq; exact absurd hq (hp objs)
+  · rfl
+
+theorem transposePart_other {iv : Interval} {p : Nat} {h : Heap}
+    (hp : ∀ objs, h[p]? ≠ some (Cell.part objs)) : transposePart iv h p = none := by
+  unfold transposePart
+  split
+  · rename_i objs hq; exact absurd hq (hp objs)
+  · rfl
+
+theorem runNotes_agrees (iv : Interval) : ∀ (l : List Nat) (h : Heap),
+    l.foldlM (transposeAt iv) h = (if (runNotes iv l h).2 then some (runNotes iv l h).1 else none)
+  | [], h => rfl
+  | a :: l, h => by
+    cases e : transposeAt iv h a with
+    | none => simp [runNotes_cons_none e, e]
+    | some h' =>
+      rw [runNotes_cons_some e]
+      simpa [e] using runNotes_agrees iv l h'
+
+theorem runParts_agrees (iv : Interval) : ∀ (ps : List Nat) (h : Heap),
+    ps.foldlM (transposePart iv) h = (if (runParts iv ps h).2 then some (runParts iv ps h).1 else none)
+  | [], h => rfl
+  | p :: ps, h => by
+    by_cases hp : ∃ objs, h[p]? = some (Cell.part objs)
+    · obtain ⟨objs, hp⟩ := hp
+      have e1 : transposePart iv h p = (notesOf h objs).foldlM (transposeAt iv) h := by
+        simp [transposePart, hp]
+      rw [runParts_cons_part hp, List.foldlM_cons, e1, runNotes_agrees]
+      cases hr : (runNotes iv (notesOf h objs) h).2 with
+      | false => simp [hr]
+      | true => simpa [hr] using runParts_agrees iv ps _
+    · have hp' : ∀ objs, h[p]? ≠ some (Cell.part objs) := fun objs hq => hp ⟨objs, hq⟩
+      rw [runParts_cons_other hp', List.foldlM_cons, transposePart_other hp']
+      rfl
+
+/-- `transpose` is `transposeRun` with the heap forgotten when it raises -/
+theorem transposeRun_agrees (h : Heap) (root : Nat) (iv : Interval) :
+    transpose h root iv = (transposeRun h root iv).2.map fun r => ((transposeRun h root iv).1, r) := by
+  unfold transpose transposeRun
+  simp only
+  rw [runParts_agrees]
+  split <;> simp
+
+/-- the inner loop, also when it stops early: frame and untouched cells -/
+theorem runNotes_frame (iv : Interval) : ∀ (l : List Nat) (h : Heap),
+    SameFrame h (runNotes iv l h).1 ∧ ∀ a, a ∉ l → (runNotes iv l h).1[a]? = h[a]?
+  | [], h => ⟨SameFrame.refl _, fun _ _ => rfl⟩
+  | x :: l, h => by
+    cases e : transposeAt iv h x with
+    | none => rw [runNotes_cons_none e]; exact ⟨SameFrame.refl _, fun _ _ => rfl⟩
+    | some h' =>
+      rw [runNotes_cons_some e]
+      obtain ⟨f1, g1, -⟩ := foldl_at iv [x] h h' (by simp [e])
+      obtain ⟨f2, g2⟩ := runNotes_frame iv l h'
+      refine ⟨f1.trans f2, fun a ha => ?_⟩
+      simp only [List.mem_cons, not_or] at ha
+      rw [g2 a ha.2, g1 a (by simp [ha.1])]
+
+theorem part_sameFrame_rev {h h' : Heap} (hf : SameFrame h h') {p : Nat} {os : List Nat}
+    (hp : h'[p]? = some (.part os)) : h[p]? = some (.part os) := by
+  have := hf.2 p
+  rw [hp] at this
+  cases h1 : h[p]? with
+  | none => simp [h1] at this
+  | some c =>
+    simp only [h1, Option.map_some, Option.some.injEq] at this
+    exact congrArg some (part_of_erase (by simpa [erase] using this.symm))
+
+/-- the outer loop, also when it stops early: cells below `n` are untouched when every part reached lists only
+    addresses from `n` on -/
+theorem runParts_frame (iv : Interval) (n : Nat) : ∀ (ps : List Nat) (h : Heap),
+    (∀ p ∈ ps, ∀ os, h[p]? = some (Cell.part os) → ∀ o ∈ os, n ≤ o) →
+    ∀ a, a < n → (runParts iv ps h).1[a]? = h[a]?
+  | [], _, _, _, _ => rfl
+  | p :: ps, h, hyp, a, ha => by
+    by_cases hp : ∃ objs, h[p]? = some (Cell.part objs)
+    · obtain ⟨objs, hp⟩ := hp
+      rw [runParts_cons_part hp]
+      obtain ⟨f1, g1⟩ := runNotes_frame iv (notesOf h objs) h
+      have hna : a ∉ notesOf h objs := by
+        intro hm
+        have := hyp p (by simp) objs hp a (List.mem_filter.mp hm).1
+        omega
+      split
+      · rw [runParts_frame iv n ps _ ?_ a ha, g1 a hna]
+        intro q hq os hos
+        exact hyp q (by simp [hq]) os (part_sameFrame_rev f1 hos)
+      · exact g1 a hna
+    · rw [runParts_cons_other (fun objs hq => hp ⟨objs, hq⟩)]
+
+/-- **whatever happens — the call returns or raises at any note — the cells of the argument are what they were** -/
+theorem transposeRun_frame (h : Heap) (root : Nat) (iv : Interval) (a : Nat) (ha : a < h.length) :
+    (transposeRun h root iv).1[a]? = h[a]? := by
+  unfold transposeRun deepcopy
+  simp only
+  rw [runParts_frame iv h.length _ _ ?_ a ha, copy_lo h _ ha]
+  rw [partsOf_copy]
+  intro p hp os hos o ho
+  obtain ⟨q, -, rfl⟩ := List.mem_map.mp hp
+  rw [copy_hi] at hos
+  cases hq : h[q]? with
+  | none => simp [hq] at hos
+  | some c =>
+    cases c with
+    | part os' =>
+      simp only [hq, Option.map_some, Cell.shift, Option.some.injEq, Cell.part.injEq] at hos
+      subst hos
+      obtain ⟨o', -, rfl⟩ := List.mem_map.mp ho
+      omega
+    | score ps' => simp [hq, Cell.shift] at hos
+    | note s al oc rs p' => simp [hq, Cell.shift] at hos
+    | other rs p' => simp [hq, Cell.shift] at hos
 
 end C16Heap
